@@ -10,7 +10,17 @@ pub struct WorkerHandleAccept { _p: () }
 //@extract_type file=actix-server/src/waker_queue.rs item="enum WakerInterest"
 #[verifier::external_body]
 pub struct Waker { _p: () }
+#[verifier::external_body]
+pub struct Registry { _p: () }
+pub struct MioToken(pub usize);
+//@extract_const file=actix-server/src/waker_queue.rs name=WAKER_TOKEN
 impl Waker {
+    /// the poll instance this waker wakes, and the token its wake-ups carry
+    pub uninterp spec fn wakes(&self) -> (int, usize);
+    #[verifier::external_body]
+    pub fn new(registry: &Registry, token: MioToken) -> (r: io::Result<Waker>)
+        ensures r matches Ok(w) ==> w.wakes() == (registry.id(), token.0),
+    { unimplemented!() }
     /// mio::Waker::wake: makes the accept thread's poll return with the waker token (A-SCHED)
     #[verifier::external_body]
     pub fn wake(&self) -> (r: io::Result<()>) { unimplemented!() }
@@ -43,6 +53,8 @@ impl<'a, T> MutexGuard<'a, VecDeque<T>> {
 pub struct Mutex<T> { _p: core::marker::PhantomData<T> }
 impl<T> Mutex<VecDeque<T>> {
     pub uninterp spec fn content(&self) -> Seq<T>;
+    #[verifier::external_body]
+    pub fn new(q: VecDeque<T>) -> (r: Mutex<VecDeque<T>>) ensures r.content() == q@ { unimplemented!() }
     /// a poisoned lock makes the code `.expect()`-panic: intended, outside the property
     #[verifier::external_body]
     pub fn lock(&self) -> (r: Result<MutexGuard<'_, VecDeque<T>>, PoisonError>)
@@ -52,8 +64,14 @@ impl<T> Mutex<VecDeque<T>> {
 #[verifier::external_body]
 #[verifier::reject_recursive_types(T)]
 pub struct Arc<T> { _p: core::marker::PhantomData<T> }
+impl Registry { pub uninterp spec fn id(&self) -> int; }
 impl<T> Arc<T> {
     pub uninterp spec fn view(&self) -> T;
+    #[verifier::external_body]
+    pub fn new(t: T) -> (r: Arc<T>) ensures r@ == t { unimplemented!() }
+    /// Arc::clone: another handle to the SAME allocation
+    #[verifier::external_body]
+    pub fn clone(&self) -> (r: Arc<T>) ensures r@ == self@ { unimplemented!() }
     #[verifier::external_body]
     pub fn deref(&self) -> (r: &T) ensures *r == self@ { unimplemented!() }
 }
@@ -67,6 +85,16 @@ pub mod std { pub mod mem {
 pub struct WakerQueue(pub Arc<(Waker, Mutex<VecDeque<WakerInterest>>)>);
 
 impl WakerQueue {
+//@extract file=actix-server/src/waker_queue.rs item="impl Clone for WakerQueue / fn clone" ret=r props=C03,C05,C06,C08 name=waker_queue::clone
+//@spec
+    ensures r.0@ == self.0@,     // [C03] every clone (one per worker, one for the server) feeds the SAME queue and waker
+//@end
+//@extract file=actix-server/src/waker_queue.rs item="impl WakerQueue / fn new" ret=r props=C03,C05,C06,C08 name=waker_queue::new sig_replace="std::io::Result<Self>=>io::Result<Self>"
+//@spec
+    ensures
+        // the queue starts empty and its waker wakes THIS poll instance with the token the accept loop looks for   [C03]
+        r matches Ok(q) ==> q.0@.1.content().len() == 0 && q.0@.0.wakes() == (registry.id(), WAKER_TOKEN.0),
+//@end
 //@extract file=actix-server/src/waker_queue.rs item="impl Deref for WakerQueue / fn deref" ret=r props=C03,C05,C06,C08 name=waker_queue::deref
 //@spec
     ensures *r == self.0@,
